@@ -626,6 +626,11 @@ def socket_framing(ctx, o, msg):
 
 def devlog_framing(ctx, o, msg, path):
     chk = ctx.chk
+    if PROG[0] is not None:
+        # a record composed by file-local helpers: look at the inlined view, where their statements stand in o
+        from engine import inline
+        o = inline.inlined(PROG[0], o)
+    root = lambda x: common.alias_root(o, x) if x is not None else None
     sn = [c for c in o.calls() if c.get('callee') in ('snprintf', 'sprintf')]
     dele = o.calls('snoopy_output_socketoutput')
     ok = len(dele) == 1
@@ -637,16 +642,7 @@ def devlog_framing(ctx, o, msg, path):
         ok = buf is not None and p.k == 'StringLiteral' and p['s'] == path
         detail = 'delegation is %s, expected (<record buffer>, "%s")' % (render(d), path)
         if ok:
-            bc = [c for c in sn if (decl_of(arg(c, 0)) or {}).get('id') == buf['id']]
-            if not bc and PROG[0] is not None:
-                from engine.dataflow import def_exprs as _de
-                for dx in _de(o, buf['id']):
-                    sx = strip(dx)
-                    hx = PROG[0].func(sx.get('callee'), o.tu) if sx is not None and sx.k == 'CallExpr' and sx.get('callee') else None
-                    if hx is not None and hx.internal:
-                        raise AnalysisBroken('the devlog record is composed by the file-local helper %s: the framing rule R4 is '
-                                             'written for a record formatted in %s itself and does not follow that split' % (
-                                                 hx.name, o.name))
+            bc = [c for c in sn if root((decl_of(arg(c, 0)) or {}).get('id')) == root(buf['id'])]
             ok = len(bc) == 1
             detail = 'record buffer is written by %d snprintf calls' % len(bc)
             if ok:
@@ -668,13 +664,13 @@ def devlog_framing(ctx, o, msg, path):
                         ok, detail = False, 'priority is %s, expected facility | level' % render(pri)
                     elif not (strip(pid).k == 'CallExpr' and strip(pid).get('callee') == 'getpid'):
                         ok, detail = False, 'pid field is %s, expected getpid()' % render(pid)
-                    elif (decl_of(m) or {}).get('id') != msg:
+                    elif root((decl_of(m) or {}).get('id')) != msg:
                         ok, detail = False, 'message field is %s' % render(m)
                     else:
                         # ident is the buffer expanded from CFG->syslog_ident_format
                         idd = decl_of(ident)
                         gen = [g for g in o.calls('snoopy_message_generateFromFormat')
-                               if (decl_of(arg(g, 0)) or {}).get('id') == (idd or {}).get('id')]
+                               if root((decl_of(arg(g, 0)) or {}).get('id')) == root((idd or {}).get('id'))]
                         src_ok = gen and strip(arg(gen[0], 3)).k == 'MemberExpr' and \
                             strip(arg(gen[0], 3))['member'] == 'syslog_ident_format'
                         if not src_ok:
